@@ -223,7 +223,9 @@ def run_impl(family, cases, shards=16, timeout=1700, env=None):
     for i, (p, _) in enumerate(procs):
         so, se = results[i]
         if p.returncode != 0:
-            raise InfraError("slt-impl %s exited %s: %s" % (family, p.returncode, se.decode("utf-8", "replace")[-2000:]))
+            # the implementation died (abort, stack overflow, ...): find the case(s) one by one
+            outs.append([run_impl_single(family, c, env or ENV) for c in chunks[i]])
+            continue
         lines = [l for l in so.decode("utf-8").split("\n") if l.strip()]
         if len(lines) != len(chunks[i]):
             raise InfraError("slt-impl %s: %d results for %d cases" % (family, len(lines), len(chunks[i])))
@@ -233,6 +235,15 @@ def run_impl(family, cases, shards=16, timeout=1700, env=None):
         for j, r in enumerate(ch):
             res[i + j * shards] = r
     return res
+
+
+def run_impl_single(family, case, env):
+    p = subprocess.run([IMPL, family], input=(json.dumps(case) + "\n").encode(), stdout=subprocess.PIPE,
+                       stderr=subprocess.PIPE, env=env, timeout=600)
+    if p.returncode != 0:
+        return {"panic": "process died with status %s (abort / stack overflow / signal)" % p.returncode,
+                "parse": ["panic"], "final": ["panic"], "events": [], "fs": [], "glob": []}
+    return json.loads(p.stdout.decode("utf-8").strip().split("\n")[-1])
 
 
 def run_model(family, mcases, shards=16, timeout=1700):
